@@ -13,7 +13,7 @@ func VerifH_C01_pageBodyFraming() {
 	vUnwind(64)
 	maxRep := byte(vChoose("maxRepetitionLevel", 0, 2))
 	maxDef := byte(vChoose("maxDefinitionLevel", 0, 3))
-	k := vChoose("numValues", 1, 4+4*vTier())
+	k := vChoose("numValues", 1, 4+vTier())
 	var rep, def []byte
 	if maxRep > 0 {
 		rep = vBytes("rep", k)
